@@ -918,8 +918,10 @@ subroutine solve(initial_values, indexes,                                       
            return
         end if
 
-     ! Errors: Raise as required
-     else if(error_control == error_control_raise) then
+     ! Errors: Raise as required (always stop for anything other than a
+     ! skipped numerical error e.g. indexing and offset errors, because the
+     ! calling Python code raises an exception for these)
+     else if(error_control == error_control_raise .or. error_code /= numerical_error_skip) then
         return
      end if
 
